@@ -117,6 +117,13 @@ REG = {
             "precondition, block size independent of the rng seed at equal step counters, 1-4 consecutive calls; exceptions raised "
             "inside kappadata for valid configurations are violations",
             "DESIGN.md §3 C17", TRUST + "; I-JEPA domain restricted to configurations whose relaxation can terminate"),
+    "C18": ("exploration", "Hypothesis-generated pipelines of commuting harness collators vs. a reference model of the collation protocol; padding validity predicate",
+            "1-4 members with default_collate_mode before/after/None (pure tagging functions that record whether they were handed "
+            "uncollated samples or the collated batch), modes of 1-4 items, with/without per-sample ctx, as KDComposeCollator / "
+            "KDSingleCollator / KDSingleCollatorWrapper plus shipped mix / DINO collators: result == tags around one default "
+            "collation, (batch, ctx) iff return_ctx, no ctx key lost or invented, batch collated at most once (counting wrapper), "
+            "unsatisfiable orders never answered; PadSequencesCollator over length profiles, single/multi-item modes and both ctx paths",
+            "DESIGN.md §3 C18", TRUST),
 }
 
 NOT_YET = "check not built yet in this session (planned, see DESIGN.md §3)"
